@@ -37,6 +37,8 @@ type mutant struct {
 	// DocumentedMiss: the change is known to be outside what the rules decide (reason); it is
 	// kept in the sweep so that the evidence shows it, and does not fail the selftest.
 	DocumentedMiss string `json:"documented_miss,omitempty"`
+	// Benign: a behaviour-preserving change (/verif/benign/<id>): any new report is a false alarm.
+	Benign bool `json:"benign,omitempty"`
 }
 
 type mutantResult struct {
@@ -94,6 +96,11 @@ func loadMutants(vd string) ([]mutant, error) {
 			ex = []string{meta.Property}
 		}
 		ms = append(ms, mutant{Name: "seed-" + filepath.Base(d), Patch: f, Expect: ex, Config: meta.Config, DocumentedMiss: meta.Miss})
+	}
+	ben, _ := filepath.Glob(filepath.Join(vd, "benign", "*", "patch.diff"))
+	sort.Strings(ben)
+	for _, f := range ben {
+		ms = append(ms, mutant{Name: "benign-" + filepath.Base(filepath.Dir(f)), Patch: f, Benign: true})
 	}
 	for i := range ms {
 		if ms[i].Config == "" {
@@ -323,8 +330,19 @@ func cmdSelftest(args []string) int {
 	}
 	rs := runMutants(*repo, sel, mutantCacheDir(*repo))
 	killed, skipped, missed, documented := 0, 0, 0, 0
+	benign, falseAlarms := 0, 0
 	for _, r := range rs {
 		switch {
+		case r.Mutant.Benign && !r.Applied:
+			fmt.Printf("SKIP   %-70s %s\n", r.Mutant.Name, r.Error)
+		case r.Mutant.Benign:
+			benign++
+			if len(r.Flagged) > 0 || r.Error != "" {
+				falseAlarms++
+				fmt.Printf("FALSE-ALARM %-65s behaviour-preserving change reported by: %s %s\n", r.Mutant.Name, strings.Join(r.Flagged, " "), r.Error)
+			} else {
+				fmt.Printf("SILENT %-70s behaviour-preserving change, no report\n", r.Mutant.Name)
+			}
 		case !r.Applied:
 			skipped++
 			fmt.Printf("SKIP   %-70s %s\n", r.Mutant.Name, r.Error)
@@ -342,11 +360,12 @@ func cmdSelftest(args []string) int {
 			fmt.Printf("MISSED %-70s expected %v, flagged only: %s\n", r.Mutant.Name, r.Mutant.Expect, strings.Join(r.Flagged, " "))
 		}
 	}
-	fmt.Printf("selftest: %d mutants, %d killed, %d missed, %d documented as outside the rules' reach, %d skipped (patch does not apply); unchanged tree: %d unexpected reports\n", len(rs), killed, missed, documented, skipped, base)
+	fmt.Printf("selftest: %d mutants, %d killed, %d missed, %d documented as outside the rules' reach, %d skipped (patch does not apply); unchanged tree: %d unexpected reports\n", len(rs)-benign, killed, missed, documented, skipped, base)
+	fmt.Printf("selftest: %d behaviour-preserving variants, %d silent, %d false alarms\n", benign, benign-falseAlarms, falseAlarms)
 	if *outf != "" {
 		an.WriteJSON(*outf, rs)
 	}
-	if missed > 0 || base > 0 {
+	if missed > 0 || base > 0 || falseAlarms > 0 {
 		return 1
 	}
 	return 0
